@@ -347,7 +347,20 @@ pub fn gen_token_types(rng: &mut Rng, n: usize, by_index: bool) -> Vec<usize> {
     if by_index {
         return (0..n).collect();
     }
-    const INTERESTING: [usize; 8] = [0, 1, 2, 255, 65_535, 65_536, 1_000_000, u32::MAX as usize];
+    // token types are `usize` in the API: values beyond 32 bits are part of "arbitrary numbers"
+    const INTERESTING: [usize; 11] = [
+        0,
+        1,
+        2,
+        255,
+        65_535,
+        65_536,
+        1_000_000,
+        u32::MAX as usize,
+        u32::MAX as usize + 1,
+        u32::MAX as usize + 6,
+        usize::MAX,
+    ];
     let mut out: Vec<usize> = Vec::new();
     while out.len() < n {
         let t = if rng.chance(1, 3) {
@@ -442,7 +455,8 @@ pub fn gen_pattern_list(rng: &mut Rng, p: &GenParams, mp: &ModeParams) -> Vec<Re
     rng.shuffle(&mut res);
     res.truncate(n.max(mp.min_pats));
     let tts = gen_token_types(rng, res.len(), mp.by_index);
-    res.into_iter()
+    let mut pats: Vec<RefPattern> = res
+        .into_iter()
         .zip(tts)
         .map(|(re, tt)| {
             let la = if rng.below(100) < mp.la_percent {
@@ -452,7 +466,20 @@ pub fn gen_pattern_list(rng: &mut Rng, p: &GenParams, mp: &ModeParams) -> Vec<Re
             };
             RefPattern { re, tt, la }
         })
-        .collect()
+        .collect();
+    // now and then two lookahead-free patterns of a mode share one token type (token type numbers
+    // are arbitrary; which of the two matched is then not observable, and need not be)
+    // The two are ADJACENT in the list: the crate ranks patterns by the first occurrence of their
+    // token type ("the token type identifies the pattern"), the statement of C01 by list position;
+    // for adjacent patterns of one type both readings give the same observable result, so the
+    // oracle demands nothing the statement leaves open.
+    if !mp.by_index && pats.len() >= 2 && rng.chance(1, 6) {
+        let a = rng.below(pats.len() - 1);
+        if pats[a].la.is_none() && pats[a + 1].la.is_none() {
+            pats[a + 1].tt = pats[a].tt;
+        }
+    }
+    pats
 }
 
 pub fn gen_single_mode(rng: &mut Rng, p: &GenParams, mp: &ModeParams) -> ScannerCfg {
